@@ -38,14 +38,20 @@ def prepare(seed, conf, pending="mixed", presteps=10):
         g.steps.append("rewrite the first block of 0/BIG")
         return g
     if pending == "emptydisk":
-        # the disk with the largest allocation loses every file (its blocks reach beyond the allocation of the other disks)
-        big = [g.val() for _ in range(4)]
-        g.a.write_file(conf.nd - 1, "LONG", big, mtime=g.stamp()); g.rec.env("write LONG"); g.steps.append("write %d/LONG" % (conf.nd - 1))
+        # the last disk holds one long file only, from position 0 to beyond the allocation of the other disks; then it loses it
+        last = conf.nd - 1
+        for f in g.files(last):
+            g.a.remove(last, f)
+        big = [g.val() for _ in range(rng.randint(5, 7))]
+        g.a.write_file(last, "LONG", big, mtime=g.stamp()); g.rec.env("disk %d holds LONG only" % last); g.steps.append("disk %d: only LONG %r" % (last, big))
+        for d in range(last):
+            for f in [x for x in g.files(d) if x != "zz"][1:]:
+                g.a.remove(d, f)
+        g.rec.env("the other disks keep one file each"); g.steps.append("the other disks keep zz and one file")
         g.a.clock += 10
         g.rec.sync("-E"); g.steps.append("sync -E")
-        for f in g.files(conf.nd - 1):
-            g.a.remove(conf.nd - 1, f)
-        g.rec.env("delete every file of disk %d" % (conf.nd - 1)); g.steps.append("delete every file of disk %d" % (conf.nd - 1))
+        g.a.remove(last, "LONG")
+        g.rec.env("delete LONG"); g.steps.append("delete %d/LONG" % last)
         return g
     if pending == "deletes":
         # only deletions are pending (of files that are fully synced)
@@ -196,7 +202,7 @@ def fix_sigint_experiment(g, seed=0):
     if not lost:
         return None
     lost = lost[:max(1, len(st["par"]))]
-    finals, res = [], {}
+    finals, res, removed = [], {}, []
     for variant in ("interrupted", "twin"):
         c = g.a.clone()
         try:
@@ -210,12 +216,23 @@ def fix_sigint_experiment(g, seed=0):
                 # the signal arrives while fix reads an intact file that follows a re-created one on the same disk (or, every
                 # other time, after one of its first writes)
                 d0, n0 = lost[0]
-                later = sorted(n for n in st["cf"][str(d0)] if n in st["fs"][str(d0)] and n != n0 and st["cf"][str(d0)][n]["bl"])
+                later = sorted((n for n in st["cf"][str(d0)] if n in st["fs"][str(d0)] and n != n0 and st["cf"][str(d0)][n]["bl"]
+                                and st["cf"][str(d0)][n]["bl"][0]["pos"] > st["cf"][str(d0)][n0]["bl"][0]["pos"]),
+                               key=lambda n: -len(st["cf"][str(d0)][n]["bl"]))
                 if later and seed % 2 == 0:
                     rule = "pread,%s,1,sigint" % os.path.join(os.path.basename(c.ddir(d0)), later[0])
                 else:
                     rule = "pwrite,%s/,%d,sigint" % (os.path.basename(c.ddir(d0)), rng.randint(1, 3))
+                before = {d: dict(st["fs"][d]) for d in rec.D}
                 r = rec.fix_killed([rule]); desc.append("fix stopped by SIGINT (%s) rc=%s" % (rule, r.rc))
+                # whatever the moment of the interruption, a file that was intact before the fix is still there with its bytes
+                after = rec.lines[-1]["state"]["fs"]
+                def intact(d, n, f):
+                    r_ = st["cf"][d].get(n)
+                    return r_ is not None and r_["sz"] == f["sz"] and r_["mt"] == f["mt"] and [b["h"] for b in r_["bl"]] == f["b"]
+                gone = [(d, n) for d in rec.D for n, f in before[d].items()
+                        if (int(d), n) not in lost and intact(d, n, f) and (n not in after[d] or after[d][n]["b"] != f["b"])]
+                removed = gone
             r, out = rec.fix(); desc.append("fix -> %s" % out["exit"])
             final = {d: {n: (tuple(f["b"]), f["sz"]) for n, f in rec.lines[-1]["state"]["fs"][d].items()} for d in rec.D}
             r, out = rec.check(); desc.append("check -> %s" % out["exit"])
@@ -225,6 +242,7 @@ def fix_sigint_experiment(g, seed=0):
         finally:
             c.destroy()
     res["diffs"] = [(d, n) for d in finals[1] for n in set(finals[0][d]) | set(finals[1][d]) if finals[0][d].get(n) != finals[1][d].get(n)]
+    res["diffs"] += [("intact file removed or changed by the interrupted fix",) + tuple(x) for x in removed]
     return res
 
 
